@@ -290,6 +290,19 @@ impl Chain {
         self.mmr = None;
     }
 
+    /// The same chain as a consistently lying filter server presents it: the filters of the blocks
+    /// `from..` are empty and the filter hashes from there on are chained over the fake filters.
+    pub(crate) fn with_fake_filters(&self, from: u64) -> Chain {
+        let mut c = self.clone();
+        let empty: packed::Bytes = Default::default();
+        for n in (from.max(1) as usize)..c.blocks.len() {
+            c.filters[n] = empty.clone();
+            let parent = c.filter_hashes[n - 1].clone();
+            c.filter_hashes[n] = calc_filter_hash(&parent, &c.filters[n]).pack();
+        }
+        c
+    }
+
     pub(crate) fn vh(&self, n: u64) -> packed::VerifiableHeader {
         let b = &self.blocks[n as usize];
         let parent_root = if n == 0 {
